@@ -21,8 +21,21 @@ Local Open Scope Z_scope.
 (** * Orientation sign as a parameter *)
 Definition sign_fn := s2_Point -> s2_Point -> s2_Point -> Z.
 
+(** bit-equality tests written with [if] (lazy under vm_compute, unlike [&&]) so that a table
+    lookup costs one comparison per non-matching entry *)
+Definition fbiteq_lazy (x y : float) : bool :=
+  if PrimFloat.eqb x y then Bool.eqb (go_signbit x) (go_signbit y)
+  else if go_isnan x then go_isnan y else false.
+
+Definition pt_eqbits_lazy (p q : s2_Point) : bool :=
+  let u := s2_Point_Vector p in let v := s2_Point_Vector q in
+  if fbiteq_lazy (r3_Vector_X u) (r3_Vector_X v) then
+    if fbiteq_lazy (r3_Vector_Y u) (r3_Vector_Y v) then fbiteq_lazy (r3_Vector_Z u) (r3_Vector_Z v)
+    else false
+  else false.
+
 Definition pt3_eqbits (a b c a' b' c' : s2_Point) : bool :=
-  s2_Point_eqbits a a' && s2_Point_eqbits b b' && s2_Point_eqbits c c'.
+  if pt_eqbits_lazy b b' then if pt_eqbits_lazy a a' then pt_eqbits_lazy c c' else false else false.
 
 (** observed RobustSign values; 99 (never a Direction) when the triple was not observed *)
 Fixpoint rs_of_table (tab : list (s2_Point * s2_Point * s2_Point * Z)) (a b c : s2_Point) : Z :=
